@@ -54,7 +54,9 @@ Definition viol_case (c : rcase) : list N :=
   | None => []
   | Some (rt, rn, me) =>
     let got := outer_invocations (g_log c) in
-    match rc_route c, decoded (ms_data (rc_msg c)) with
+    (* "payload not JSON" is judged on the bytes sent ([rc_json]), not by any decoder's success;
+       a valid JSON text of the wrong shape is undecodable as well (the generator's knowledge) *)
+    match rc_route c, (if rc_json c then decoded (ms_data (rc_msg c)) else None) with
     | None, _ =>
       (if is_nil got then [] else [1]) ++
       (if is_error_with code_not_found (Some (e_msg err_not_found, None)) (the_response c) then [] else [3])
